@@ -13,3 +13,35 @@ Theorem C05_one_record_per_finalisation : forall s now o,
      rlog (finalize s now o) = rlog s ++ [mklr (f_name f) (f_renamed f) (f_hash f) (f_size f) now]).
 Proof. exact finalize_logs_first. Qed.
 Print Assumptions C05_one_record_per_finalisation.
+
+(* a file whose cache entry is not "validated" - in particular one that is already
+   put away (finalized / loaded from the log) or failed - is never logged or
+   delivered by a finalisation *)
+Theorem C05_known_version_not_logged_again : forall s now o f0,
+  nth_error (heap s) o = Some f0 ->
+  cache_state (lock (f_name f0) s) (f_name f0) <> ST_VALIDATED ->
+  rlog (finalize s now o) = rlog s /\ finals (finalize s now o) = finals s /\ waits (finalize s now o) = waits s.
+Proof. exact finalize_needs_validated. Qed.
+Print Assumptions C05_known_version_not_logged_again.
+
+(* a part that completes a file whose version (hash) the cache knows - held, put
+   away, or still being processed; anything but failed - is recognised as a
+   retransmission: acknowledged, and nothing is queued for validation, staged as a
+   complete body, logged or delivered *)
+Theorem C05_retransmission_discarded : forall s p d sf o,
+  alookup (p_name p) (parts s) = Some sf ->
+  Z.of_nat (length d) = p_end p - p_beg p ->
+  let n := p_name p in
+  let c0 := match alookup n (cmps s) with
+            | Some c => if name_eqb (c_hash c) (p_hash p)
+                        then mkcomp (c_renamed c) (p_prev p) (c_size c) (c_hash c) (c_parts c)
+                        else mkcomp (p_renamed p) (p_prev p) (p_size p) (p_hash p) []
+            | None => mkcomp (p_renamed p) (p_prev p) (p_size p) (p_hash p) [] end in
+  complete (add_part (c_parts c0) (p_beg p) (p_end p)) (c_size c0) = true ->
+  cache_obj s n = Some o -> f_state (obj s o) <> ST_FAILED -> f_hash (obj s o) = p_hash p ->
+  snd (receive s p d false) = true /\
+  vq (fst (receive s p d false)) = vq s /\ fulls (fst (receive s p d false)) = fulls s /\
+  heap (fst (receive s p d false)) = heap s /\ rlog (fst (receive s p d false)) = rlog s /\
+  finals (fst (receive s p d false)) = finals s.
+Proof. exact receive_duplicate_discarded. Qed.
+Print Assumptions C05_retransmission_discarded.
